@@ -136,12 +136,19 @@ def getitem(eng, st, ref, o, idx):
     for d in range(o.ndim):
         ix = idx[d] if d < len(idx) else SliceV(None, None)
         if isinstance(ix, SliceV):
+            step = 1
             if ix.step is not None:
-                raise OutOfSubset('slice step')
+                step = concrete(ix.step)
+                if step is None or int(step) != step or step < 1:
+                    raise OutOfSubset('slice step that is not a positive integer constant')
+                step = int(step)
             n = o.shape[d]
             lo = 0 if ix.lo is None else clip_index(ix.lo, n)
             hi = n if ix.hi is None else clip_index(ix.hi, n)
-            dims.append((d, lo, maxv(sub(hi, lo), 0) if not (isinstance(lo, int) and lo == 0 and hi is n) else n))
+            extent = maxv(sub(hi, lo), 0) if not (isinstance(lo, int) and lo == 0 and hi is n) else n
+            if step > 1:
+                extent = floordiv(add(extent, step - 1), step)        # ceil(extent / step) cells: lo, lo + step, ...
+            dims.append((d, lo, extent, step))
         elif isinstance(ix, Ref):
             raise OutOfSubset('mixed fancy indexing')
         else:
@@ -153,10 +160,11 @@ def getitem(eng, st, ref, o, idx):
         full = [None] * o.ndim
         for d, v in fixed.items():
             full[d] = v
-        for (d, lo, _), k in zip(dims, i):
-            full[d] = add(k, lo) if not (isinstance(lo, int) and lo == 0) else k
+        for (d, lo, _, step), k in zip(dims, i):
+            kk = mul(k, step) if step > 1 else k
+            full[d] = add(kk, lo) if not (isinstance(lo, int) and lo == 0) else kk
         return o.at(*full)
-    return new_ref(st, ArrV([n for _, _, n in dims], at, o.dtype, 'view:' + o.origin if o.origin != 'fresh' else 'fresh'))
+    return new_ref(st, ArrV([n for _, _, n, _ in dims], at, o.dtype, 'view:' + o.origin if o.origin != 'fresh' else 'fresh'))
 
 
 def clip_index(i, n):
@@ -1006,13 +1014,69 @@ def np_unique(eng, st, args, kwargs):
 
 @lib('numpy.arange')
 def np_arange(eng, st, args, kwargs):
-    """np.arange(n) with an integer n: the array 0, 1, ..., n - 1"""
-    if len(args) != 1 or kwargs:
-        raise OutOfSubset('np.arange with start / step / dtype')
-    n = to_num(args[0])
-    if not is_int_like(n):
-        raise OutOfSubset('np.arange of a non-integer')
-    yield new_ref(st, ArrV((maxv(n, 0),), lambda i: i, 'int')), st
+    """np.arange(n) / np.arange(start, stop) with integers: start, start + 1, ..., stop - 1;
+    np.arange(0, stop, step) with a positive constant step (real stop): 0, step, 2 step, ... below stop - ceil(stop / step) cells (A1: exact reals)"""
+    if kwargs:
+        raise OutOfSubset('np.arange with dtype')
+    if len(args) == 1:
+        n = to_num(args[0])
+        if not is_int_like(n):
+            raise OutOfSubset('np.arange of a non-integer')
+        yield new_ref(st, ArrV((maxv(n, 0),), lambda i: i, 'int')), st
+        return
+    if len(args) == 2 and is_int_like(to_num(args[0])) and is_int_like(to_num(args[1])):
+        lo, hi = to_num(args[0]), to_num(args[1])
+        yield new_ref(st, ArrV((maxv(sub(hi, lo), 0),), (lambda i: i) if concrete(lo) == 0 else (lambda i, lo=lo: add(i, lo)), 'int')), st
+        return
+    if len(args) == 3 and concrete(args[0]) == 0 and concrete(args[2]) is not None and concrete(args[2]) > 0:
+        step = concrete(args[2])
+        stop = to_real(to_num(args[1]))
+        sc = concrete(stop)
+        if sc is not None:
+            import math
+            cnt = max(int(math.ceil(sc / step)), 0)
+        else:
+            # ceil(stop / step) = -floor(-stop / step)
+            q = truediv(stop, step)
+            cnt = z3.Int(fresh_name('arange.n'))
+            st.assume(and_(cnt >= 0, z3.Implies(to_z3(stop) > 0, z3.And(z3.ToReal(cnt) >= to_z3(q), z3.ToReal(cnt) < to_z3(q) + 1)),
+                           z3.Implies(to_z3(stop) <= 0, cnt == 0)))
+        yield new_ref(st, ArrV((cnt,), lambda i, step=step: mul(to_real(i), step), 'real')), st
+        return
+    raise OutOfSubset('np.arange with this start / stop / step')
+
+
+@lib('numpy.interp')
+def np_interp(eng, st, args, kwargs):
+    """np.interp(x, xp, fp) where xp is the index grid 0, 1, ..., n - 1 (xp[i] == i, recognised from its cells): piecewise linear through
+    the points (i, fp[i]), constant outside [0, n - 1]"""
+    if kwargs or len(args) != 3:
+        raise OutOfSubset('np.interp with left / right / period')
+    xp, fp = arr_of(eng, st, args[1]), arr_of(eng, st, args[2])
+    if xp is None or fp is None or xp.ndim != 1 or fp.ndim != 1:
+        raise OutOfSubset('np.interp on non 1-D data')
+    t = z3.Int(fresh_name('ip'))
+    probe = xp.at(t)
+    if not (is_z3(probe) and to_z3(probe).eq(t)) and not (concrete(xp.shape[0]) is not None and all(concrete(xp.at(k)) == k for k in range(int(concrete(xp.shape[0]))))):
+        raise OutOfSubset('np.interp with abscissae other than np.arange(n)')
+    n = fp.shape[0]
+    eng.oblige('safe', 'interp-lengths', st, and_(eq(xp.shape[0], n), lt(0, n)))
+
+    def value(x, fp=fp, n=n):
+        x = to_real(to_num(x))
+        xc, nc = concrete(x), concrete(n)
+        if xc is not None and nc is not None:
+            import math
+            if xc <= 0:
+                return fp.at(0)
+            if xc >= nc - 1:
+                return fp.at(int(nc) - 1)
+            i = int(math.floor(xc))
+            return add(fp.at(i), mul(xc - i, sub(fp.at(i + 1), fp.at(i))))
+        i = z3.ToInt(to_z3(x))          # floor
+        inner = add(fp.at(i), mul(sub(x, z3.ToReal(i)), sub(fp.at(add(i, 1)), fp.at(i))))
+        return ite(le(x, 0), fp.at(0), ite(le(sub(to_real(n), 1), x), fp.at(sub(n, 1)), inner))
+    yield map1(eng, st, args[0], value, 'real'), st
 
 
 _RND = [None]
